@@ -188,6 +188,11 @@ def apply_rules(card, sig, body, log):
         body = re.sub(r'\b%s\b' % re.escape(a), b, body)
         log.append({'rule': 'X0', 'match': 'use-alias %s => %s' % (a, b)})
     run('X1', R.x1_logging)
+    for (rule, old, new) in card.bodysubs:
+        if old not in body:
+            raise AnchorLost('%s: bodysub anchor %r lost' % (card.id, old))
+        body = body.replace(old, new)
+        log.append({'rule': rule, 'match': old[:120]})
     run('X21', R.x21_debug_assert)
     sig, body, hits = R.x2_io_generic(sig, body)
     for h in hits:
@@ -207,11 +212,6 @@ def apply_rules(card, sig, body, log):
     run('X23', R.x23_match_never)
     if 'optq' not in card.opts:
         run('X22', R.x22_try_result)
-    for (rule, old, new) in card.bodysubs:
-        if old not in body:
-            raise AnchorLost('%s: bodysub anchor %r lost' % (card.id, old))
-        body = body.replace(old, new)
-        log.append({'rule': rule, 'match': old[:120]})
     for (old, new) in card.sigsubs:
         if old not in sig:
             raise AnchorLost('%s: sigsub anchor %r lost' % (card.id, old))
@@ -260,6 +260,8 @@ def emit_fn(card, repo, out, info, twin=False):
     fid = card.id
     if card.mode == 'assumed':
         out.add('#[verifier::external_body]', {'fn': fid, 'part': 'attr'})
+    if 'nodecreases' in card.opts:
+        out.add('#[verifier::exec_allows_no_decreases_clause]', {'fn': fid, 'part': 'attr'})
     if card.opts.get('rlimit'):
         out.add('#[verifier::rlimit(%s)]' % card.opts['rlimit'], {'fn': fid, 'part': 'attr'})
     out.add(sig, {'fn': fid, 'part': 'sig'})
@@ -496,6 +498,8 @@ def parse_opts(tokens):
         if '=' in t:
             k, v = t.split('=', 1)
             opts[k] = v
+        else:
+            opts[t] = True
     return opts
 
 
@@ -539,7 +543,7 @@ def generate(repo, template_paths, twin=False):
                 i += 1
                 continue
             d, rest = m.group(1), m.group(2)
-            toks = shlex.split(rest)
+            toks = shlex.split(rest) if d not in ('trusted', 'lemma') else rest.split()
             if d == 'type':
                 derive = None
                 mm = re.search(r'derive\(([^)]*)\)', rest)
